@@ -1,7 +1,7 @@
 """Which properties are claimed, at what level, and why the others are not."""
 
 HOOK_COMMITS = []
-FIX_COMMITS = ["5a7ea92", "968480f", "81560c0", "dd9d1dc"]
+FIX_COMMITS = ["5a7ea92", "968480f", "81560c0", "dd9d1dc", "30a1d27", "d05b8f1"]
 
 _PURE = "pure function of its arguments (no storage, stream, clock, retry, schedule or fault in the statement or the anchored code): deciding it means generating inputs, which is not deterministic simulation (DESIGN.md section 6)"
 
@@ -18,6 +18,18 @@ NOT_APPLICABLE = {
 NOT_BUILT = {}
 
 CLAIMED = {
+    "C37": {
+        "level": "exploration",
+        "text": "Seeded sequences (3-10) of set_if_equals/remove_if_equals/add_if_new with current/stale/previous/zero/None expected values over refs absent/loose/packed/both/symbolic on memory and local-path stores, each call checked (result + state via a fresh container) against a CAS model; and 2 updaters x 1-3 calls pre-empted at every store op, history + final state checked for linearizability by brute force. Sampling, not proof.",
+        "note": "local-path store: lock files are O_EXCL outside the seam; memory store stands for transports without local paths (has+put lock, known racy); updater reads and symref-changing ops are not in the history; remove_if_equals on symrefs only unconditional/stale. Sequential defect fixed in /repo; concurrent non-atomicity recorded as open findings.",
+        "technique": "deterministic simulation: model-based sequential oracle + seeded scheduler with linearizability check of tiny histories",
+    },
+    "C38": {
+        "level": "exploration",
+        "text": "Generated native 2a histories (2-6 revs; files, dirs, symlinks, exec, renames, merges) -> recorded real exporter add_object sequences -> Dict/Sqlite/Index backends driven like _update_sha_map with commit/abort/crash write groups and re-opening; every lookup_* / revids / sha1s / missing_revisions answer compared with Dict references (committed subset-of answer subset-of ever-added), Index commit crash all-or-nothing.",
+        "note": "Tdb not importable here; lookup_git_sha compared as non-empty subset; lookup_tree_id may be unimplemented; aborted-group visibility not judged; 8 cases per forked run.",
+        "technique": "deterministic simulation: differential check of cache backends against a reference model, crash fault at the store seam",
+    },
     "C27": {
         "level": "fault_enumeration",
         "text": "For one LockDir operation (create, attempt_lock, unlock, force_break, break_lock) on one generated pre-state (holder none/dead/live/corrupt/empty, lock dir present or not, leftover tmp dirs, steal_dead on/off) every transport operation of the operation is hit, each from a freshly rebuilt identical pre-state: crash with the op dropped, crash with the op applied, torn info write at several fractions including empty, and an injected transport error before the op. After each fault a fresh process must see None / parseable info / LockCorrupt from peek(), acquire directly or after the matching break, release, and leave no held dir; a failed attempt_lock must not leave the caller's nonce in held/info. Enumeration is complete per (operation, pre-state); operations and pre-states are sampled.",
